@@ -80,8 +80,94 @@ def main(tier):
                 k += 1
                 ck.ob('pivot-guarded', 'amgcl::solver::skyline_lu::factorize|pivot#%d' % k, f.where(asg), ok,
                       '' if ok else 'the pivot `%s` is inverted at %s without a dominating precondition(!math::is_zero(%s))' % (e, f.where(asg), e))
+    rule_profile(ck, units)
     ck.assumptions += ['exactness of LU / inverse / QR / static-matrix algebra and Cuthill-McKee being a permutation are not decided (numerical / combinatorial)']
     return ck.finish()
+
+
+def order_cases(f, L, block):
+    """orderings o in {'<', '==', '>'} of the two compared index variables under which `block` is reachable from the entry of the
+    body of loop L (branches that compare the pair follow the edge consistent with o; every other branch follows both edges)"""
+    cfg = f.cfg
+    lcond = [b for b, blk in cfg.blocks.items() if blk.get('term') == L['i']]
+    if not lcond:
+        return None, None
+    H = lcond[0]
+    entry = cfg.succ[H][0] if cfg.succ[H] else None
+    pair = None
+    # the compared pair: two integer locals compared with each other inside the loop
+    cnt = {}
+    for n in walk(L['b']):
+        if n['k'] == 'bin' and n['op'] in ('<', '>', '<=', '>=', '==', '!='):
+            x, y = unwrap(n['x']), unwrap(n['y'])
+            if x is not None and y is not None and x['k'] == 'ref' and y['k'] == 'ref' and x['d'] != y['d']:
+                key = tuple(sorted((x['d'], y['d'])))
+                cnt[key] = cnt.get(key, 0) + 1
+    if not cnt:
+        return None, None
+    pair = max(cnt, key=cnt.get)
+    out = set()
+    for o in ('<', '==', '>'):
+        seen, work = set(), [entry]
+        while work:
+            b = work.pop()
+            if b is None or b in seen or b == H:
+                continue
+            seen.add(b)
+            c = cfg.cond(b)
+            succs = cfg.succ[b]
+            truth = None
+            if c is not None and len(succs) == 2:
+                cu = unwrap(c)
+                if cu['k'] == 'bin' and cu['op'] in ('<', '>', '<=', '>=', '==', '!='):
+                    x, y = unwrap(cu['x']), unwrap(cu['y'])
+                    if x['k'] == 'ref' and y['k'] == 'ref' and tuple(sorted((x['d'], y['d']))) == pair:
+                        oo = o if (x['d'], y['d']) == pair else {'<': '>', '>': '<', '==': '=='}[o]
+                        truth = {'<': oo == '<', '>': oo == '>', '<=': oo in ('<', '=='), '>=': oo in ('>', '=='), '==': oo == '==', '!=': oo != '=='}[cu['op']]
+            for k, s_ in enumerate(succs):
+                if truth is True and k == 1:
+                    continue
+                if truth is False and k == 0:
+                    continue
+                work.append(s_)
+        if block in seen:
+            out.add(o)
+    return out, pair
+
+
+def rule_profile(ck, units):
+    ck.rule('profile-covers-stores', 'skyline_lu constructor: in every ordering of the permuted row / column index in which the copy pass stores an entry into L or U, the profile pass '
+                                     'raises the row length / column height (so the skyline has room for every entry, also for structurally non-symmetric matrices)', 1)
+    done = set()
+    for u in units.values():
+        for f in u.funcs:
+            if not (f.cls == 'amgcl::solver::skyline_lu' and f.j.get('ctor') and f.cfg is not None) or f.line in done:
+                continue
+            loc = locate(f)
+            prof, store = {}, {}
+            for n in f.nodes.values():
+                if n['k'] == 'bin' and n['op'] == '=' and n['i'] in loc:
+                    lhs = unwrap(n['x'])
+                    if lhs is None or lhs['k'] != 'idx':
+                        continue
+                    base = unwrap(lhs['b'])
+                    nm = base.get('n') if base is not None and base['k'] in ('mem', 'ref') else None
+                    loops = [a for a in f.ancestors(n) if a['k'] in ('for', 'while')]
+                    if not loops or nm not in ('ptr', 'L', 'U'):
+                        continue
+                    cases, pair = order_cases(f, loops[0], loc[n['i']][0])
+                    if cases is None:
+                        continue
+                    (prof if nm == 'ptr' else store).setdefault(nm, set()).update(cases)
+            if not store:
+                continue
+            done.add(f.line)
+            need = set().union(*store.values()) - {'=='}
+            have = set().union(*prof.values()) if prof else set()
+            missing = sorted(need - have)
+            ck.ob('profile-covers-stores', 'amgcl::solver::skyline_lu::ctor', f.where(), not missing and bool(prof),
+                  '' if (not missing and prof) else 'entries are stored into L / U when the permuted row index is %s the permuted column index, but the profile (ptr) is never raised in that case: '
+                                                    'the entry overwrites a slot of another row / column' % ' / '.join(missing or ['?']))
 
 
 def _idents(s):
